@@ -32,8 +32,16 @@ def result_of(fi):
     return idx, asm
 
 
+# every child reports this process id (None: its real one).  Two runs in two containers, or on two hosts that
+# share the directory, or one after the other on a machine that recycles process ids, have the same pid.
+FIXED_PID = None
+
+
 def _child_main(path, buffer, req_w, go_r, res_w, scheduled):
     import tola.fasta.index as ix
+
+    if FIXED_PID is not None:
+        os.getpid = lambda: FIXED_PID
 
     events = {"written": [], "replaced": []}
     lines_run = set()
@@ -66,27 +74,50 @@ def _child_main(path, buffer, req_w, go_r, res_w, scheduled):
             raise KeyboardInterrupt("injected")
 
     # -- raw layer ------------------------------------------------------------------
+    def short(f):
+        nm = f.name
+        if isinstance(nm, int):
+            try:
+                nm = os.readlink(f"/proc/self/fd/{nm}")
+            except OSError:
+                nm = f"fd{nm}"
+        return os.path.basename(os.fsdecode(nm))[-8:]
+
     class YFileIO(io.FileIO):
         def write(self, b):
-            yp(f"raw:write:{os.path.basename(self.name)[-8:]}:{len(b)}")
+            yp(f"raw:write:{short(self)}:{len(b)}")
             return super().write(b)
 
         def readinto(self, b):
-            yp(f"raw:read:{os.path.basename(self.name)[-8:]}")
+            yp(f"raw:read:{short(self)}")
             return super().readinto(b)
 
         def readall(self):
-            yp(f"raw:readall:{os.path.basename(self.name)[-8:]}")
+            yp(f"raw:readall:{short(self)}")
             return super().readall()
 
         def close(self):
             if not self.closed:
-                yp(f"raw:close:{os.path.basename(self.name)[-8:]}")
+                yp(f"raw:close:{short(self)}")
             return super().close()
 
     real_open = io.open
 
     def my_open(file, mode="r", buffering=-1, encoding=None, errors=None, newline=None, closefd=True, opener=None):
+        if isinstance(file, int):
+            # a descriptor obtained with os.open(): the same raw layer, on the file it refers to
+            try:
+                target = os.readlink(f"/proc/self/fd/{file}")
+            except OSError:
+                target = ""
+            if is_ours(target) and target != base:
+                writing = any(c in mode for c in "wax+")
+                yp(f"raw:open:{os.path.basename(target)[-8:]}:{mode}")
+                raw = YFileIO(file, mode.replace("b", "").replace("t", ""), closefd=closefd)
+                if writing:
+                    events["written"].append(target)
+                buf = io.BufferedWriter(raw) if writing else io.BufferedReader(raw)
+                return buf if "b" in mode else io.TextIOWrapper(buf, encoding=encoding, errors=errors, newline=newline)
         if not isinstance(file, int) and is_ours(file) and os.fsdecode(file) != base:
             name = os.fsdecode(file)
             writing = any(c in mode for c in "wax+")
@@ -104,7 +135,7 @@ def _child_main(path, buffer, req_w, go_r, res_w, scheduled):
     import builtins
 
     builtins.open = my_open
-    for fn_name in ("stat", "replace", "rename", "unlink", "remove"):
+    for fn_name in ("stat", "replace", "rename", "unlink", "remove", "open"):
         real = getattr(os, fn_name)
 
         def make(real, fn_name):
